@@ -186,6 +186,14 @@ class A(Adapter):
         if legal is None:
             return None
         dem = np.asarray(s.nodes.demands)
+        # deadline-aware: while there is slack, stall at the depot half of the time, so that many episodes complete on
+        # (or right before) the last step the step limit allows
+        n_cust, n_veh = legal.shape[1] - 1, legal.shape[0]
+        unserved = int((dem[1:] > 0).sum())
+        needed = -(-unserved // n_veh) + 1
+        remaining = (2 * n_cust - 1) - (int(s.step_count) - 1)
+        if unserved and remaining > needed and rng.random() < 0.5:
+            return [DEPOT] * n_veh
         taken, out = set(), []
         for v in range(legal.shape[0]):
             idx = [int(i) for i in np.flatnonzero(legal[v]) if i != DEPOT and int(i) not in taken]
